@@ -558,6 +558,11 @@ def cargo_build(ctx, crate, profile="dev", hooks=True, features=None, extra_rust
     tdir = TARGET + ("-" + hashlib.sha1(" ".join(flags).encode()).hexdigest()[:6] if extra_rustflags else "")
     if alt:
         tdir = os.path.join(BUILD, "alt-" + alt, "target")
+        if not os.path.exists(tdir) and os.path.exists(TARGET) and not extra_rustflags:
+            # warm start: hard-link copy of the main target dir, so registry dependencies are reused and
+            # only the crates under the scratch worktree (different package ids => different file names) rebuild
+            os.makedirs(os.path.dirname(tdir), exist_ok=True)
+            subprocess.run(["cp", "-al", TARGET, tdir])
     cmd = ["cargo", "build", "--offline", "--quiet"]
     if profile == "release":
         cmd.append("--release")
